@@ -348,9 +348,9 @@ Proof.
 Qed.
 
 Lemma opp_index_stale d x :
-  wf d -> stale d x -> x <> INone -> opp_index d x = Ok None.
+  wf d -> stale d x -> opp_index d x = Ok None.
 Proof.
-  intros W S N. rewrite (opp_index_ref d None x W (conj S N)). simpl. f_equal.
+  intros W S. rewrite (opp_index_ref d None x W S). simpl. f_equal.
   apply py_index_none. intros H. apply valid_aliases_incl in H.
   pose proof (wf_al_str d W) as F. rewrite Forall_forall in F. destruct (F _ H) as [s E]. discriminate.
 Qed.
@@ -528,3 +528,83 @@ Proof.
   rewrite (shim_xf_refs d t1 re ri rt rb W A1 A2 A3 A4).
   rewrite (shim_xf_refs d t2 re ri rt rb W B1 B2 B3 B4). rewrite P. reflexivity.
 Qed.
+
+(* ---- after the repair of translate_element_id(None): totality and UNCONDITIONAL idempotence ---- *)
+(* (condition on the dimension only: no element id / sub-variable id is null) *)
+Lemma mapM_total {A B} (f : A -> res B) l :
+  (forall x, exists b, f x = Ok b) -> exists r, mapM f l = Ok r.
+Proof.
+  intros Hf. induction l as [|x l [r IH]]; simpl; [eexists; reflexivity|].
+  destruct (Hf x) as [b Hb]. rewrite Hb, IH. eexists; reflexivity.
+Qed.
+
+Lemma replaced_ids_total d l : ~ In INone (raw_ids d) -> exists r, replaced_ids d l = Ok r.
+Proof. intros HN. apply mapM_total. intros x. apply translate_total. exact HN. Qed.
+
+Lemma replaced_elements_total d e : ~ In INone (raw_ids d) -> exists e', replaced_elements d e = Ok e'.
+Proof.
+  intros HN. unfold replaced_elements.
+  destruct (replaced_ids_total d (map fst e) HN) as [ks Hk]. unfold replaced_ids in Hk. rewrite Hk.
+  destruct (dget key_str e) as [[| |p]|]; eexists; reflexivity.
+Qed.
+
+Lemma opt_res_total {A B} (f : A -> res B) o :
+  (forall a, exists b, f a = Ok b) -> exists o', opt_res f o = Ok o'.
+Proof.
+  intros Hf. destruct o as [a|]; simpl; [|eexists; reflexivity].
+  destruct (Hf a) as [b Hb]. rewrite Hb. eexists; reflexivity.
+Qed.
+
+(* the shim never raises, whatever the transforms dict contains *)
+Lemma shim_xf_total d t : ~ In INone (raw_ids d) -> snd (shim_xf d t) = None.
+Proof.
+  intros HN. unfold shim_xf.
+  destruct (opt_res_total (replaced_elements d) (x_elements t)
+              (fun e => replaced_elements_total d e HN)) as [e' ->].
+  destruct (opt_res_total (replaced_ids d) (x_ids t) (fun l => replaced_ids_total d l HN)) as [i' ->].
+  destruct (opt_res_total (replaced_ids d) (x_top t) (fun l => replaced_ids_total d l HN)) as [t' ->].
+  destruct (opt_res_total (replaced_ids d) (x_bottom t) (fun l => replaced_ids_total d l HN)) as [b' ->].
+  reflexivity.
+Qed.
+
+(* a rewritten id list is a fixed point - INCLUDING the None entries stale ids were rewritten to *)
+Lemma replaced_ids_fix_none d l :
+  ids_not_none d -> Forall (fun a => a = INone \/ In a (aliases d)) l -> replaced_ids d l = Ok l.
+Proof.
+  intros [N1 N2] H. unfold replaced_ids. apply mapM_fix.
+  eapply Forall_impl; [|exact H]. intros a [->|Ha]; [apply translate_none; assumption|].
+  apply translate_alias. exact Ha.
+Qed.
+
+Lemma opt_ids_idem_full d o o' :
+  ids_not_none d -> opt_res (replaced_ids d) o = Ok o' -> opt_res (replaced_ids d) o' = Ok o'.
+Proof.
+  intros HN. destruct o as [l|]; simpl.
+  - destruct (replaced_ids d l) as [r|ex] eqn:E; [|discriminate]. intros H; inversion H; subst.
+    simpl. rewrite (replaced_ids_fix_none d r HN (replaced_ids_out d l r E)). reflexivity.
+  - intros H; inversion H; subst. reflexivity.
+Qed.
+
+(* shim (shim t) = shim t, without any condition on the transforms *)
+Lemma shim_xf_idem_full d t t' :
+  ~ In key_str (aliases d) -> ids_not_none d -> shim_xf d t = (t', None) -> shim_xf d t' = (t', None).
+Proof.
+  intros HK HN H. destruct (shim_xf_ok_inv d t t' H) as [E1 [E2 [E3 E4]]].
+  unfold shim_xf.
+  rewrite (opt_elements_idem d _ _ HK E1), (opt_ids_idem_full d _ _ HN E2),
+          (opt_ids_idem_full d _ _ HN E3), (opt_ids_idem_full d _ _ HN E4).
+  destruct t'; reflexivity.
+Qed.
+
+Lemma shim_xf_fixed d t :
+  ~ In key_str (aliases d) -> ids_not_none d ->
+  shim_xf d (fst (shim_xf d t)) = (fst (shim_xf d t), None).
+Proof.
+  intros HK HN. apply (shim_xf_idem_full d t); try assumption.
+  rewrite (surjective_pairing (shim_xf d t)). rewrite (shim_xf_total d t (proj1 HN)). reflexivity.
+Qed.
+
+Lemma consume_shim_invariant_full d t :
+  ~ In key_str (aliases d) -> ids_not_none d ->
+  consume d (fst (shim_xf d (fst (shim_xf d t)))) = consume d (fst (shim_xf d t)).
+Proof. intros HK HN. rewrite (shim_xf_fixed d t HK HN). reflexivity. Qed.
